@@ -186,6 +186,15 @@ class C09(Spec):
                 return ("get-wrong", "final Get2 of %s returned %s, last execution returned %s" % (t, val, execs[t][-1][1]))
         return None
 
+    def extra(self, ctx):
+        """count the lines the monitor did not judge: `ok unchecked …` (an exploration / search limit of the driver was
+        reached — such a line is never rejected, only the oracle judged it) and `ok oracle-only` (stress lines)"""
+        ex = ctx.get("ex") or {}
+        model = ex.get("model") or []
+        ctx["coverage"]["monitor_unchecked_lines"] = sum(1 for m in model if m.startswith("ok unchecked"))
+        ctx["coverage"]["monitor_oracle_only_lines"] = sum(1 for m in model if m.startswith("ok oracle-only"))
+        ctx["coverage"]["monitor_tie_order_lines"] = sum(1 for m in model if m.startswith("ok tie-order"))
+
     def nontrivial(self, script, impl):
         if script.startswith("stress "):
             return True
